@@ -66,7 +66,7 @@ def run(ctx):
                    'FactoredInference.estimate / GraphicalModel.synthetic_data are pure post-processing of their arguments']
     T, outs = run_taint(repo)
     for rel, q, cls in ENTRIES:
-        ctx.analysed(repo.func(rel, q))
+        ctx.analysed(repo.nfunc(rel, q))
     # ---- sinks ------------------------------------------------------------------------------------------
     bad_keys = {}
     for mod, func, node, what, why in T.violations:
@@ -113,7 +113,7 @@ def local_defs(fi):
 def check_domains(ctx):
     repo = ctx.repo
     # ---- MST: undo map pairing ----------------------------------------------------------------------------------
-    mst = repo.func('mechanisms/mst.py', 'MST')
+    mst = repo.nfunc('mechanisms/mst.py', 'MST')
     undo = None
     for s in walk_shallow(mst.node):
         if isinstance(s, ast.Assign) and isinstance(s.targets[0], ast.Tuple) and isinstance(s.value, ast.Call) \
@@ -129,7 +129,7 @@ def check_domains(ctx):
             ctx.ob('domain-restored', mst, r, ok,
                    'the data was compressed (supports of size < domain size are merged); the returned dataset must go through the '
                    'undo map `%s` of that compression; returns `%s`' % (undo, U(r.value)[:60]))
-    cd = repo.func('mechanisms/mst.py', 'compress_domain')
+    cd = repo.nfunc('mechanisms/mst.py', 'compress_domain')
     rets = [r for r in walk_shallow(cd.node) if isinstance(r, ast.Return)]
     defs = local_defs(cd)
     for r in rets:
@@ -144,7 +144,7 @@ def check_domains(ctx):
                'transform_data(data, S) paired with lambda d: reverse_data(d, S)')
     # ---- the forward and the backward map keep the attribute set ---------------------------------------------------
     for q in ('transform_data', 'reverse_data'):
-        fi = repo.func('mechanisms/mst.py', q)
+        fi = repo.nfunc('mechanisms/mst.py', q)
         ctx.analysed(fi)
         data = fi.params[0]
         loops = [s for s in fi.body if isinstance(s, ast.For) and U(s.iter) in (data + '.domain', data + '.domain.attrs')]
